@@ -1,4 +1,4 @@
-import ScenicModel.Props.C14
+import ScenicModel.Props.C14Base
 /-! C14 side condition (finding `global-leak:currentSimulation:setup-failure` while it fails):
     `self.agents` exists before the `try`, so the `finally` block always reaches `veneer.endSimulation`. -/
 namespace Scenic.C14
